@@ -1424,6 +1424,27 @@ func (f *e1func) transfer(st *fstate, n ast.Node, sites *[]*e1site) []*fstate {
 		for _, l := range s.Lhs {
 			lhs = append(lhs, f.lhsTerm(l))
 		}
+		// the outcome of an interpreted helper call is known before the assignment; if an argument variable is itself
+		// reassigned by it (x, err := f(x)) the call term goes stale, so the outcome is carried over to the status variable
+		var carried []*Term
+		if len(rhs) == 1 && (rhs[0].K == "call" || rhs[0].K == "mcall") {
+			if idx, isBool, n := f.callStatusIdx(s.Rhs[0]); idx >= 0 && idx < len(lhs) && n == len(lhs) && lhs[idx] != nil && lhs[idx].K == "var" {
+				switch {
+				case st.has(fact("ok", rhs[0])):
+					if isBool {
+						carried = append(carried, fact("true", lhs[idx]))
+					} else {
+						carried = append(carried, fact("nil", lhs[idx]))
+					}
+				case st.has(fact("fail", rhs[0])):
+					if isBool {
+						carried = append(carried, fact("false", lhs[idx]))
+					} else {
+						carried = append(carried, fact("nonnil", lhs[idx]))
+					}
+				}
+			}
+		}
 		for _, lt := range lhs {
 			if lt == nil {
 				continue
@@ -1502,6 +1523,7 @@ func (f *e1func) transfer(st *fstate, n ast.Node, sites *[]*e1site) []*fstate {
 				}
 			}
 		}
+		add = append(add, carried...)
 		// a definition is also stated with the variables of its right-hand side replaced by their own definitions
 		// (a temporary introduced for an argument does not hide what was passed)
 		nadd := len(add)
@@ -1742,7 +1764,7 @@ func (f *e1func) doReturn(rs *ast.ReturnStmt, cur []*fstate, sites *[]*e1site, p
 			if ns := st.with(f.okFacts(st, tail, true)...); ns != nil {
 				put(&fstate{facts: ns.facts, from: st, via: "tail-call ok"}, true, true)
 			}
-			if ns := st.with(fact("fail", tail)); ns != nil {
+			if ns := st.with(append([]*Term{fact("fail", tail)}, f.failGuarFacts(tail)...)...); ns != nil {
 				put(&fstate{facts: ns.facts, from: st, via: "tail-call fail"}, false, true)
 			}
 			continue
@@ -1759,7 +1781,7 @@ func (f *e1func) doReturn(rs *ast.ReturnStmt, cur []*fstate, sites *[]*e1site, p
 					if ns := st.with(f.okFacts(st, d.A[1], true)...); ns != nil {
 						put(&fstate{facts: ns.facts, from: st, via: "returned status ok"}, true, true)
 					}
-					if ns := st.with(fact("fail", d.A[1])); ns != nil {
+					if ns := st.with(append([]*Term{fact("fail", d.A[1])}, f.failGuarFacts(d.A[1])...)...); ns != nil {
 						put(&fstate{facts: ns.facts, from: st, via: "returned status fail"}, false, true)
 					}
 					continue
